@@ -9,7 +9,7 @@
    floor(log2(255/rest)) and whatever float log2 returns); `post D raw` =
    simplification followed by the filter d < D; `sumq` = sum of n / 2^d. *)
 From Coq Require Import ZArith QArith Qabs List Bool.
-From NQ Require Import Num.Angle Proofs.AngleProofs Proofs.AngleWitness.
+From NQ Require Import Num.Angle Proofs.AngleProofs Proofs.AngleWitness Proofs.AngleFloatProofs.
 From Gen Require Import Gen_Angle.
 Import ListNotations.
 Open Scope Q_scope.
@@ -153,6 +153,40 @@ Theorem C19_radians_partial : forall angle tol rest thr outs out k p,
   Qabs ((sumq out + 2 * inject_Z k) * p - angle) <= tol + FE_ALLOW.
 Proof. exact radians_checked. Qed.
 
+(* The rational model of binary64 round-to-nearest-even used by the front end
+   has relative error at most 2^-53 (normal range) ... *)
+Theorem C19_rne53_half_ulp : forall q r, rne53 q = Some r -> Qabs (r - q) <= Qabs q * pow2 (-53).
+Proof. exact rne53_spec. Qed.
+
+(* ... hence, for EVERY angle in [0, 2*np.pi) and every 2^-240 <= tol <= 1 (all
+   rationals, in particular all such doubles) the front end meets the hypotheses
+   of the theorems above (rest in [0,2), thr >= 2^-248) and its error, threshold
+   excess included, is at most 2^-49 rad: 2*2^-53*pi for the division, 2*(pi - np.pi),
+   (1+2^-53)*pi/np.pi - 1 for tol/np.pi.  k = 1 exactly when `if rest >= 2` fired. *)
+Theorem C19_front_first_turn : forall angle tol rest thr,
+  0 <= angle -> angle < 2 * PI_D -> pow2 (-240) <= tol -> tol <= 1 ->
+  front angle tol = Some (rest, thr) ->
+  0 <= rest /\ rest < 2 /\ pow2 (8 - D_FIELD) <= thr /\
+  exists k, (k = 0 \/ k = 1)%Z /\
+    forall p, PI_LO <= p -> p <= PI_HI -> fe_at angle tol rest thr k p <= FE_ALLOW.
+Proof. exact front_first_turn. Qed.
+
+(* C19_radians_full with the allowance 2^-49, WITHOUT per-input hypothesis, for
+   the input class 0 <= angle < 2*np.pi, 2^-240 <= tol <= 1.
+   _partial only in: (i) the class (negative angles and further turns are covered by
+   C19_radians_partial with the checked hypothesis; large angles are the finding),
+   (ii) the allowance 2^-49 rad, (iii) the front end is the rational model
+   Angle.front, whose equality with the PrimFloat operations and with the values
+   observed inside the implementation is checked on every case of every run,
+   not proved (PrimFloat's specification axioms are deliberately not imported). *)
+Theorem C19_radians_first_turn_partial : forall angle tol rest thr outs out,
+  0 <= angle -> angle < 2 * PI_D -> pow2 (-240) <= tol -> tol <= 1 ->
+  front angle tol = Some (rest, thr) -> spec_all angle tol = Some outs -> In (Some out) outs ->
+  exists k, (k = 0 \/ k = 1)%Z /\
+    forall p, PI_LO <= p -> p <= PI_HI ->
+      Qabs ((sumq out + 2 * inject_Z k) * p - angle) <= tol + FE_ALLOW.
+Proof. exact radians_first_turn. Qed.
+
 (* its hypotheses hold for the doubles angle = 0.3, tol = 1e-4 (k = 0), and for
    angle = -1.0 with k = -1 *)
 Example C19_radians_partial_nonvacuous :
@@ -257,6 +291,9 @@ Print Assumptions C19_spec_exact_defined.
 Print Assumptions C19_within_tol_radians.
 Print Assumptions C19_radians_with_front_end.
 Print Assumptions C19_radians_partial.
+Print Assumptions C19_rne53_half_ulp.
+Print Assumptions C19_front_first_turn.
+Print Assumptions C19_radians_first_turn_partial.
 Print Assumptions C19_old_threshold_refuted.
 Print Assumptions C19_old_filter_refuted.
 Print Assumptions C19_rest_two_refuted.
